@@ -1,7 +1,7 @@
 """C07 - content the model does not use has no effect on any result."""
 import ast
 
-from sa.astutil import (call_name, calls_in, dotted, norm, walk_no_nested, fact_texts,
+from sa.astutil import (facts_at, call_name, calls_in, dotted, norm, walk_no_nested, fact_texts,
                         last_attr, names_in, guards_of, call_arg, block_always_exits)
 from sa.loader import AnalysisError
 from sa.tables import Cfg, columns_of_slice, subscript_range
@@ -63,11 +63,14 @@ def run(ctx):
                 ctx.ob('C07.R1', 'reader-columns:' + norm(node), set(cols) <= USED_FIELDS,
                        'the record loop reads %s = PDB fields %s' % (norm(node), cols),
                        rl.mod, node)
-    ctx.need('C07.R1', 20)
+    common.check_fixed_columns(ctx, 'C07.R1', prog, ['name', 'x', 'y', 'z', 'res_num', 'res_name',
+                                                     'chain_id', 'icode'])
+    ctx.need('C07.R1', 28)
     # element derived only from the name columns (all definitions)
     el_defs = [s for s in walk_no_nested(sp) if isinstance(s, ast.Assign)
                and norm(s.targets[0]) == 'self.element']
     ok = bool(el_defs)
+    bad_guard = None
     for s in el_defs:
         for sub in ast.walk(s.value):
             if isinstance(sub, ast.Subscript) and dotted(sub.value) == line_p:
@@ -76,9 +79,22 @@ def run(ctx):
                     ok = False
         if not ({n for n in names_in(s.value)} <= {line_p, 'self', 'string', 'format'}):
             ok = False
+        # ... and so does the decision which definition applies
+        for e, _pol in facts_at(s, sp):
+            for sub in ast.walk(e):
+                if isinstance(sub, ast.Attribute) and norm(sub.value) == 'self' \
+                        and sub.attr not in ('name', 'element'):
+                    ok = False
+                    bad_guard = norm(e)
+                if isinstance(sub, ast.Subscript) and dotted(sub.value) == line_p:
+                    rng = subscript_range(sub)
+                    if rng is None or columns_of_slice(*rng) != ['name']:
+                        ok = False
+                        bad_guard = norm(e)
     ctx.ob('C07.R1', 'element:from-name-columns-only', ok,
-           'every definition of Atom.element derives from the atom-name columns (and the name) '
-           'only', amod, el_defs[0] if el_defs else sp)
+           'every definition of Atom.element, and every condition that selects between them, '
+           'derives from the atom-name columns (and the name) only%s'
+           % ('' if bad_guard is None else ' - condition: ' + bad_guard), amod, el_defs[0] if el_defs else sp)
 
     # ------------------------------------------------------------------ R2
     common.check_inert_fields(ctx, 'C07.R2', prog, ['numb', 'occ', 'beta'])
